@@ -69,6 +69,10 @@ func (m *Orthographic) Reverse(xy geom.XY) geom.XY {
 		cosφ0 = m.cosφ0
 		sinφ0 = m.sinφ0
 	)
+	if xy.X == 0 && xy.Y == 0 {
+		// The centre maps to the origin; the general formula is 0/0 there.
+		return rtodxy(λ0, asin(sinφ0))
+	}
 	var (
 		ρ = xy.Length()
 		c = asin(ρ / R)
